@@ -5,7 +5,7 @@ from harness import runner, model
 from harness.oracles import abnormal
 from harness.stackgen import gen_layers
 from harness.stackrun import StackRun, fut_state, state_desc, tap_submits
-from harness.env import SpyFuture, desc
+from harness.env import SpyExecutor, SpyFuture, desc
 
 PROP = "C03"
 PLAN = {"quick": {"runs": 16000, "wall_s": 90}, "thorough": {"runs": 200000, "wall_s": 1200}}
@@ -26,9 +26,88 @@ def family(sig):
     return sig.rsplit("|", 1)[0]
 
 
+def gen_timeouts(rng):
+    """Mode T: futures that never finish on their own (but can be cancelled), given different
+    timeouts through f_timeout (one shared executor) or TimeoutExecutor.submit_timeout, created at
+    drawn times by one or two threads: each is finished (cancelled) no later than its own timeout
+    implies, whatever the other deadlines are."""
+    n = rng.choice([2, 2, 3, 4])
+    items = []
+    for i in range(n):
+        items.append({"timeout": rng.choice([0.1, 0.2, 0.5, 2.0, 12.0]), "at": rng.choice([0, 0, 0.01, 0.05, 0.3]), "by": rng.randrange(2)})
+    spec = {"mode": "T", "via": rng.choice(["f_timeout", "submit_timeout"]), "items": items, "settle": 20.0}
+    spec["sim"] = runner.draw_sim_cfg(rng, est=300, stall_ok=False)
+    spec["sim"]["horizon_s"] = 20000
+    return spec
+
+
+def run_timeouts(spec, env):
+    from more_executors import Executors, futures as F
+    sim = env.sim
+    spy = SpyExecutor(env, n=0)     # no workers: the submitted callables stay queued, hence cancellable
+    ex = Executors.with_timeout(spy, 5000.0) if spec["via"] == "submit_timeout" else None
+    outs = {}
+
+    def forever():
+        sim.sleep(4000.0)
+
+    def creator(k):
+        def body():
+            mine = sorted((it["at"], i) for i, it in enumerate(spec["items"]) if it["by"] == k)
+            t = 0.0
+            for (at, i) in mine:
+                if at > t:
+                    env.sleep(at - t)
+                    t = at
+                it = spec["items"][i]
+                b = env.rec("create", i, it["timeout"])
+                if ex is not None:
+                    f = ex.submit_timeout(it["timeout"], forever)
+                else:
+                    f = F.f_timeout(SpyFuture(env, "in%d" % i), it["timeout"])
+                f.add_done_callback(lambda fut, i=i: env.rec("out-done", i))
+                outs[i] = f
+                env.rec("created", i, b)
+        return body
+
+    for k in range(2):
+        env.client(creator(k), "client-c%d" % k)
+    env.join_all()
+    env.sleep(spec["settle"])
+    for i, f in sorted(outs.items()):
+        env.rec("final-t", i, "done" if f.done() else "pending")
+
+
+def check_timeouts(spec, env):
+    sim = env.sim
+    log = sim.log
+    out = []
+    slack = SLACK + sim.clock_reads * sim.tick_ns / 1e9
+    created = {e[4]: e[1] for e in log if e[3] == "created"}
+    done = {}
+    for e in log:
+        if e[3] == "out-done" and e[4] not in done:
+            done[e[4]] = e[1]
+    for i, it in enumerate(spec["items"]):
+        if i not in created:
+            continue
+        limit = created[i] / 1e9 + it["timeout"] + slack
+        if it["timeout"] >= spec["settle"]:
+            continue
+        t = done.get(i)
+        if t is None or t / 1e9 > limit:
+            others = sorted(x["timeout"] for j, x in enumerate(spec["items"]) if j != i)
+            out.append({"oracle": "late-completion", "sig": "timeout-late|%s|%s" % (spec["via"], "never" if t is None else "late"),
+                        "msg": "item %d (%s, timeout %.2fs, created t=%.3fs) %s; nothing else can finish it, its timeout implies t<=%.3fs; other timeouts in the same executor: %r"
+                               % (i, spec["via"], it["timeout"], created[i] / 1e9, "was still pending at the end" if t is None else "finished at t=%.3fs" % (t / 1e9), limit, others)})
+    return out
+
+
 def gen(rng, tier):
     r = rng.random()
-    mode = "A" if r < 0.4 else ("B" if r < 0.8 else "C")
+    mode = "A" if r < 0.4 else ("B" if r < 0.75 else ("C" if r < 0.92 else "T"))
+    if mode == "T":
+        return gen_timeouts(rng)
     if mode == "C":
         return gen_comb(rng)
     depth = rng.choice([1, 1, 2, 2, 3, 4])
@@ -120,6 +199,8 @@ def gen_comb(rng):
 
 # ---------------------------------------------------------------------------------------
 def run(spec, env):
+    if spec["mode"] == "T":
+        return run_timeouts(spec, env)
     if spec["mode"] == "C":
         return run_comb(spec, env)
     sr = StackRun(spec, env)
@@ -257,6 +338,8 @@ def check(spec, env):
     sim = env.sim
     if abnormal(sim):
         return []
+    if spec["mode"] == "T":
+        return check_timeouts(spec, env)
     if spec["mode"] == "C":
         return check_comb(spec, env)
     out = []
@@ -348,6 +431,11 @@ def probes(spec, env):
     sim = env.sim
     pr = {"mode:" + spec["mode"]: 1, "abnormal-runs": 1 if abnormal(sim) else 0}
     trig = False
+    if spec["mode"] == "T":
+        pr["mixed-timeouts-in-one-executor"] = 1 if len(set(it["timeout"] for it in spec["items"])) > 1 else 0
+        pr["clock-jumps-to-library-timers"] = sum(1 for e in sim.log if e[3] == "clock-jump" and any(not w[0].startswith("client") for w in e[5]))
+        pr["_nontrivial"] = sim.preemptions > 0 and pr["mixed-timeouts-in-one-executor"] > 0
+        return pr
     if spec["mode"] == "C":
         pr["comb:" + spec["comb"]] = 1
         pr["fault:input-cancelled-externally"] = sum(1 for e in sim.log if e[3] == "complete" and e[5] == "cancel")
@@ -368,6 +456,13 @@ def probes(spec, env):
 def shrink(spec):
     def cp():
         return json.loads(json.dumps(spec))
+    if spec["mode"] == "T":
+        for i in range(len(spec["items"])):
+            if len(spec["items"]) > 1:
+                s = cp()
+                del s["items"][i]
+                yield s
+        return
     if spec["mode"] == "C":
         for i in range(len(spec["inputs"])):
             if len(spec["inputs"]) > 1:
